@@ -107,3 +107,17 @@ Definition check_bingham (finite : bool) (D' : nat) (maxc eps : float) (x impl :
   let post := tab (S D') (bing_post FO finite D' maxc eps (fnth x)) in
   andR (cmpF 0x1p-40%float (0x1p-40 * scale9 impl)%float post impl)
        (okR (forallb (fun a => andb (leF (- maxc) a) (leF a (-0x1.5798ee2308c3ap-27))) x)).   (* -1e-8 *)
+
+(* ---------------- binary64 behaviour of the vMF concentration at the pole r_bar = 1 (explored, not a theorem of RO) ----
+   identical frames give r_bar = 1 exactly or 1 +- ulp depending on rounding:
+     r_bar = 1      : numerator/0 = +inf, clipped to max_concentration
+     r_bar = 1 - ulp: huge positive, clipped to max_concentration
+     r_bar = 1 + ulp: huge NEGATIVE, clipped to MIN_concentration  (inside the domain, but the opposite end) *)
+Definition kappa_of_rbar (D : nat) (kmin kmax rb : float) : float :=
+  omin FO (omax FO (vmf_kappa_raw FO D rb) kmin) kmax.
+Example vmf_pole_exact : PrimFloat.eqb (kappa_of_rbar 3 0x1.b7cdfd9d7bdbbp-34 500 1) 500 = true.
+Proof. vm_compute. reflexivity. Qed.
+Example vmf_pole_below : PrimFloat.eqb (kappa_of_rbar 3 0x1.b7cdfd9d7bdbbp-34 500 0x1.fffffffffffffp-1) 500 = true.
+Proof. vm_compute. reflexivity. Qed.
+Example vmf_pole_above : PrimFloat.eqb (kappa_of_rbar 3 0x1.b7cdfd9d7bdbbp-34 500 0x1.0000000000001p+0) 0x1.b7cdfd9d7bdbbp-34 = true.
+Proof. vm_compute. reflexivity. Qed.
